@@ -16,7 +16,8 @@ TIERS = {
 }
 RULE = (
     "Hypothesis draws a pytree skeleton (dict/list/dataclass nesting, None leaves, leaf shapes (),(n,),(n,m)), float32 "
-    "leaf values, bounds min<max per leaf and a chain of 1-4 transforms; each case checks round trip, end points, "
+    "leaf values, bounds min<max per leaf (float32, and a second integer-typed set: int32 arrays / Python ints derived as "
+    "floor(lo), floor(lo)+max(1,ceil(gap))) and a chain of 1-4 transforms; each case checks round trip, end points, "
     "monotonicity, chain order (vs a float64 reference composition), Shared and Extend.apply. Non-trivial = the tree has "
     ">= 2 array leaves and either a None leaf or nesting depth >= 2, and the chain has >= 2 members whose two orders "
     "differ by more than 100x the comparison tolerance (so an order bug is observable); distinct = hash of the drawn spec."
